@@ -67,6 +67,11 @@ func c16Menu() []*config.PikeConfig {
 		{Caches: caches("c2"), Upstreams: up("u2"), Locations: []config.LocationConfig{l2, {Name: "l1", Upstream: "u2"}}, Servers: []config.ServerConfig{{Addr: c16S2, Locations: []string{"l1"}, Cache: "c2", CompressMinLength: "2kb"}}},
 		// 7: like 0, but the cache names a store that cannot be opened (it runs memory-only) and the filter is set
 		{Caches: []config.CacheConfig{{Name: "c1", Size: 100, HitForPass: "5m", Store: c11BadStore}}, Upstreams: up("u1"), Locations: []config.LocationConfig{l1}, Servers: []config.ServerConfig{{Addr: c16S1, Locations: []string{"l1"}, Cache: "c1", CompressContentTypeFilter: "text"}}},
+		// 9: like 0 with another size for c1 (size is a restart-only setting: the running cache and its entries stay)
+		{Caches: []config.CacheConfig{{Name: "c1", Size: 200, HitForPass: "5m"}}, Upstreams: up("u1"), Locations: []config.LocationConfig{l1}, Servers: []config.ServerConfig{{Addr: c16S1, Locations: []string{"l1"}, Cache: "c1"}}},
+		// 10: two caches on one store URL (pike hands out one store instance per URL); 11: one of them removed again
+		{Caches: []config.CacheConfig{{Name: "c1", Size: 100, HitForPass: "5m", Store: "fault://c16shared"}, {Name: "c2", Size: 100, HitForPass: "5m", Store: "fault://c16shared"}}, Upstreams: up("u1"), Locations: []config.LocationConfig{l1}, Servers: []config.ServerConfig{{Addr: c16S1, Locations: []string{"l1"}, Cache: "c1"}}},
+		{Caches: []config.CacheConfig{{Name: "c1", Size: 100, HitForPass: "5m", Store: "fault://c16shared"}}, Upstreams: up("u1", "u2"), Locations: []config.LocationConfig{l1}, Servers: []config.ServerConfig{{Addr: c16S1, Locations: []string{"l1"}, Cache: "c1"}}},
 		// 8: the same cache (store still unusable), unrelated change: second upstream and location
 		{Caches: []config.CacheConfig{{Name: "c1", Size: 100, HitForPass: "5m", Store: c11BadStore}}, Upstreams: up("u1", "u2"), Locations: []config.LocationConfig{l1, l2}, Servers: []config.ServerConfig{{Addr: c16S1, Locations: []string{"l1", "l2"}, Cache: "c1", CompressContentTypeFilter: "text"}}},
 	}
@@ -139,15 +144,18 @@ type c16Sys struct {
 	menu  []*config.PikeConfig
 	fresh []string // expected probe result per configuration (fresh start)
 	e     *env.Env
-	cur   int
-	round int
-	c     *Ctx
+	cur    int
+	round  int
+	c      *Ctx
+	shared *env.FaultStore
 }
 
 func (s *c16Sys) NumEvents() int          { return len(s.menu) }
 func (s *c16Sys) Enabled(ev int) bool     { return ev != s.cur }
 func (s *c16Sys) EventName(ev int) string { return fmt.Sprintf("apply config %d", ev) }
 func (s *c16Sys) Reset() {
+	s.shared = env.NewFaultStore()
+	s.shared.Register("fault://c16shared")
 	s.e = env.New(s.menu[0])
 	procEnv = nil
 	s.cur = 0
@@ -184,6 +192,11 @@ func (s *c16Sys) Apply(ev int) (string, string, string) {
 	s.e.Rebind()
 	s.cur = ev
 	s.round++
+	for _, cc := range nw.Caches {
+		if cc.Store == "fault://c16shared" && s.shared.Closed {
+			return "", "store-of-configured-cache-closed", fmt.Sprintf("after applying config %d the store of cache %s (shared with a cache that was removed) is closed", ev, cc.Name)
+		}
+	}
 	for _, n := range cache.VerifDispatcherNames() {
 		if p, ok := disp[n]; ok && p != fmt.Sprintf("%p", cache.GetDispatcher(n)) {
 			return "", "surviving-cache-replaced", fmt.Sprintf("cache %s survives the update but its dispatcher object was replaced", n)
@@ -321,7 +334,7 @@ func c16Conc(c *Ctx, name string, b vsched.Bounds) Sched {
 
 func init() {
 	Register("C16", func(c *Ctx) {
-		c.Out.Rule = "BFS over all sequences (depth 3 quick / 4 thorough) of 9 valid configurations (one cache with a store that cannot be opened) (add/remove/modify servers, caches, locations, upstreams, compress profiles incl. a bestCompression override, optional fields set and unset) applied with main.update()'s call sequence to a running instance; after every step the live instance's probe observations (routing, rewrite, added headers/query, encoding, compressed length, cache binding) must equal those of an instance freshly started with that configuration, surviving caches keep their dispatcher object and seeded entries; plus every bounded schedule of an update racing two requests on an unchanged server (real loopback origin); restart-only settings excluded"
+		c.Out.Rule = "BFS over all sequences (depth 3 quick / 4 thorough) of 12 valid configurations (a cache with a store that cannot be opened, a cache whose size changes, two caches on one store URL) (add/remove/modify servers, caches, locations, upstreams, compress profiles incl. a bestCompression override, optional fields set and unset) applied with main.update()'s call sequence to a running instance; after every step the live instance's probe observations (routing, rewrite, added headers/query, encoding, compressed length, cache binding) must equal those of an instance freshly started with that configuration, surviving caches keep their dispatcher object and seeded entries; plus every bounded schedule of an update racing two requests on an unchanged server (real loopback origin); restart-only settings excluded"
 		c.Out.Assume = []string{"the harness applies configurations with the same calls in the same order as main.update() (checked against main.go's AST by the driver)"}
 		menu := c16Menu()
 		fresh := make([]string, len(menu))
